@@ -38,6 +38,9 @@ CHECKS["C08"] = ("exploration", "6.C08", "Histories of 2-6 Execute / cancelled E
 CHECKS["C16"] = ("exploration", "6.C16", "Histories of build / remove / re-build / instantiate / store / load operations over 1-3 knowledge bases in 1-3 libraries; after every operation every knowledge base is instantiated, stored+loaded, fetched and executed on probe facts and compared with an executable model.", H_NOTE, "deterministic simulation: seeded operation histories checked step by step against an executable reference model")
 CHECKS["C17"] = ("exploration", "6.C17", "The same histories mixed with valid documents in varied notation (must be accepted with all metadata), documents invalid by construction in 16 classes (must be rejected; syntactic ones with a GruleErrorReporter) and resources whose reader fails; a rejection must leave every previously loaded knowledge base instantiable, storable and behaving as before.", H_NOTE + " Acceptance exactness is decided on constructed classes only (no independent recogniser for arbitrary token mutants).", "deterministic simulation: seeded operation histories with malformed resources and failing readers, state-after-rejection checked against a reference model")
 
+CHECKS["C20"] = ("exploration", "6.C20", "Valid GRL, JSON-rule, JSON-fact and GRB artefacts are damaged on the simulated disk (bit flips, length-field edits with boundary numbers, truncation, splices, zero-filled tails, duplicated blocks, hostile fragments, random bytes), delivered through chunking readers and loaded in a guarded child process; oracle: value-or-error, no panic, no process abort, allocation within 64 MiB + 64 KiB/byte, completion within a watchdog (confirmed alone before it is called a hang).",
+ "Honest framing: this is seeded corruption of stored artefacts and their delivery, not coverage of every byte string. Trusted base: the child-process protocol, runtime.MemStats accounting, the calibrated bound.", "deterministic simulation with fault injection: seeded media corruption and reader faults, loaders run in a guarded child process")
+
 NOT_YET = {
  "C08": "not yet claimed: history simulation (Sim H) under construction",
  "C09": "not yet claimed: concurrency simulation (Sim K) under construction",
